@@ -362,11 +362,10 @@ TrueReport(t, err) == ReportAt(t, 0, TLen(t), IF err.k = "eof" THEN TLen(t) + 1 
 
 \* obs = [line, ex, col]: the quoted text is a piece of the line of the offending byte and the caret
 \* (counted in terminal cells) stands under that byte
-Correct(t, err, obs) ==
+Placed(t, err, obs) ==
   LET A == Anchor(t, err)
       E == obs.ex
-  IN /\ obs.line = TrueLine(t, err)
-     /\ \A i \in 1..Len(E) : E[i] # CR /\ E[i] # LF
+  IN /\ \A i \in 1..Len(E) : E[i] # CR /\ E[i] # LF
      /\ \E k \in 0..Len(E) :
           /\ Width(Take(E, k)) = obs.col
           /\ (k < Len(E) => ~IsCont(E[k + 1]))
@@ -374,9 +373,18 @@ Correct(t, err, obs) ==
           /\ Slice(t, A - k, A - k + Len(E)) = E
           /\ (err.k = "syntax" /\ ByteAt(t, err.p) \notin {CR, LF} => k < Len(E))
 
+Correct(t, err, obs) == obs.line = TrueLine(t, err) /\ Placed(t, err, obs)
+
 \* the scenario classes in which the code is known to leave the property (narrow, structural)
 \* D9: the offending position is not inside the window any more (discarded read-ahead)
 InDiscarded(v, err, N) == IF err.k = "syntax" THEN err.p < v.a ELSE v.a >= N /\ N > 0
 \* D13: a lone CR terminator lies in the discarded / skipped prefix
 LoneCRSkipped(t, v) == PT(t, v.a) # PLF(t, v.a)
+\* the observable signature of D13: everything right except the line number, which falls short by at most
+\* the number of lone-CR terminators before the offending position
+LoneCRBefore(t, err) == LET A == Anchor(t, err) IN PT(t, A) - PLF(t, A)
+D13Signature(t, err, obs) ==
+  /\ Placed(t, err, obs)
+  /\ obs.line < TrueLine(t, err)
+  /\ obs.line >= TrueLine(t, err) - LoneCRBefore(t, err)
 =============================================================================
